@@ -230,6 +230,38 @@ pub fn c18_case(rng: &mut Rng, i: u64, st: &mut Stats) -> CaseOutcome {
         }
         st.count("exports_over_existing_larger_files");
     }
+    // fault: the file of ONE mode cannot be written (a directory sits at its path) while the files
+    // of the others can: the call must report an error - returning Ok would claim a file per mode
+    if cfg.modes.len() >= 2 && rng.chance(1, 12) {
+        let blocked = rng.below(cfg.modes.len());
+        let bp = dir.join(format!("{}_{}.dot", prefix, cfg.modes[blocked].name));
+        let _ = std::fs::remove_file(&bp);
+        if std::fs::create_dir_all(&bp).is_ok() {
+            st.count("fault_one_mode_file_blocked");
+            let r = sut(|| scanner.generate_compiled_automata_as_dot(&prefix, &dir));
+            let _ = std::fs::remove_dir_all(&dir);
+            return match r {
+                Err(pm) => CaseOutcome::Violated(Violation::new(format!("generate_compiled_automata_as_dot panicked when the file of mode #{} could not be written: {}", blocked, pm), case())),
+                Ok(Ok(())) => CaseOutcome::Violated(Violation::new(
+                    format!(
+                        "generate_compiled_automata_as_dot returned Ok although the file of mode #{} ({:?}) of {} modes could not be written (a directory sits at its path)",
+                        blocked,
+                        cfg.modes[blocked].name,
+                        cfg.modes.len()
+                    ),
+                    case(),
+                )),
+                Ok(Err(_)) => {
+                    st.count("fault_one_mode_file_blocked_error_returned");
+                    if blocked + 1 < cfg.modes.len() {
+                        st.count("fault_non_last_mode_file_blocked_error_returned");
+                    }
+                    st.nontrivial(hash_of(&(&cfg, &prefix, blocked)));
+                    CaseOutcome::Ok
+                }
+            };
+        }
+    }
     let r = sut(|| scanner.generate_compiled_automata_as_dot(&prefix, &dir));
     let cleanup = |d: &Path| {
         let _ = std::fs::remove_dir_all(d);
@@ -459,6 +491,7 @@ pub fn c18(tier: Tier) -> i32 {
     .floor("fault_existing_non_utf8_folder_ok", 20)
     .floor("fault_read_only_sysfs_error_returned", 20)
     .floor("fault_readonly_folder_error_returned", 10)
+    .floor("fault_non_last_mode_file_blocked_error_returned", 30)
     .assume("mode names do not contain '/' or NUL (the file name is derived from them) and are distinct within a scanner")
     .assume("hook H1 reports the compiled automaton faithfully (C02 validates the same dump against the patterns)");
     finish(&ctx, res, report)
